@@ -43,7 +43,9 @@ mod imp {
     impl<X: ToCell> ToCell for Option<X> {
         fn cell(&self) -> Cell {
             match self {
-                Some(v) => v.cell(),
+                // an optional result must be canonical: `Some(NaN)` is NOT the null of an Option (DESIGN 5.4) and must not be
+                // read as one — it becomes an Err cell, which no model output contains
+                Some(v) => match v.cell() { Cell::F(x) if x.is_nan() => Cell::Err, c => c },
                 None => Cell::Null,
             }
         }
@@ -66,7 +68,8 @@ mod imp {
             Cell::Int(AggValidBasic::count(mk()) as i128),
             Cell::Int(mk().count_valid() as i128),
             Cell::Int(mk().count_none() as i128),
-            mk().vsum().cell(),
+            // vsum is plain arithmetic: on the hostile stream inf + -inf is a legitimate Some(NaN) (DESIGN 5.2), not a null
+            match mk().vsum() { Some(v) => v.cell(), None => Cell::Null },
             mk().vmin().cell(),
             mk().vmax().cell(),
         ];
